@@ -6,6 +6,7 @@ from sa.deps import Facts, names_in, pseudo
 from sa.loader import AnalysisError, FuncInfo, own_nodes
 from sa.model import is_drain_call, rowloop_signature, stmts_after, u, where
 from sa.paths import CONTINUE, FALL, RAISE, Enumerator, path_nodes
+from sa.pattern import find_expr, find_stmt, has_expr, has_stmt, match_expr, match_stmt
 
 J = 'dataflows.processors.join'
 
@@ -74,7 +75,8 @@ def check(ctx):
     # unmatched outer rows get nulls for the joined fields (their own value if present)
     ex = [n for n in ast.walk(lp) if isinstance(n, ast.Assign) and pseudo(n.targets[0]) == 'extra' and isinstance(n.value, ast.Call)
           and u(n.value.func) == 'dict']
-    ok = len(ex) == 1 and 'for k in fields.keys()' in u(ex[0].value) and '(k, %s.get(k))' % row in u(ex[0].value)
+    ok = len(ex) == 1 and (match_expr('dict(((_k, _r.get(_k)) for _k in fields.keys()))', ex[0].value, {'_r': row}) is not None or
+                           match_expr('dict(((_k, _r.get(_k)) for _k in fields))', ex[0].value, {'_r': row}) is not None)
     run.check(ok, 'R23', where(repo, lp), pt.qualname, 'extra = dict((k, row.get(k)) for k in fields.keys())',
               'an unmatched target row does not get a null for every joined field')
     # full-outer emission after the loop
@@ -117,10 +119,13 @@ def check(ctx):
     run.check(len(kv) == 1 and [pseudo(a) for a in kv[0].args] == [irow, irn], 'R23', where(repo, il), ix.qualname,
               'key = source_key(row, row_number)', 'the source key is not rendered from the row and its number')
     # aggregation over non-null values only, with the aggregator named by the spec
-    body = u(il)
-    ok = "current[field] = AGGREGATORS[agg].func(curr, new)" in body and "if new is not None:" in body and \
-        "elif field not in current:" in body and "current[field] = None" in body and "curr = current.get(field)" in body and \
-        "agg = spec['aggregate']" in body and "new = row.get(name)".replace('row', irow) in body and "name = spec['name']" in body
+    fold = find_stmt('if _new is not None:\n    _cur[_f] = AGGREGATORS[_agg].func(_c, _new)\nelif _f not in _cur:\n    _cur[_f] = None', il)
+    ok = len(fold) == 1
+    if ok:
+        b = fold[0][1]
+        ok = has_stmt("%s = %s.get(%s)" % (b['_c'], b['_cur'], b['_f']), il) and has_stmt("%s = _spec['aggregate']" % b['_agg'], il) and \
+            (has_stmt("%s = %s.get(_n)" % (b['_new'], irow), il) or has_stmt("%s = %s[_n]" % (b['_new'], irow), il)) and \
+            has_stmt("_n = _spec['name']", il)
     run.check(ok, 'R23', where(repo, il), ix.qualname,
               'current[field] = AGGREGATORS[spec aggregate].func(current.get(field), row.get(spec name)) for non-null values',
               'aggregates are not folded over exactly the non-null source values of the matching key')
